@@ -45,7 +45,7 @@ func RebuildCut(dir string, e *Env, c int64, tag int) (string, []string, []strin
 	}
 	res, rows, e2 := rebuild(c, "cut")
 	if e2 != nil {
-		defer e2.Close()
+		defer e2.Shutdown()
 	}
 	var msgs []string
 	if res == "stuck" {
@@ -75,7 +75,7 @@ func RebuildCut(dir string, e *Env, c int64, tag int) (string, []string, []strin
 	}
 	bres, brows, e3 := rebuild(boundary, "boundary")
 	if e3 != nil {
-		defer e3.Close()
+		defer e3.Shutdown()
 	}
 	if bres != "ok" {
 		return res, rows, msgs // the complete prefix itself does not rebuild: other properties' business
@@ -248,7 +248,7 @@ func RunHistoryB(dir string, c Cfg, id string, next func() (Call, bool), wantTre
 	if err != nil {
 		return nil, err
 	}
-	defer e.Close()
+	defer func() { e.Shutdown() }()
 	s := NewSession(e)
 	hist := &History{ID: id, Cfg: c}
 	prevBlocks := int64(0)
@@ -290,7 +290,7 @@ func RunHistoryB(dir string, c Cfg, id string, next func() (Call, bool), wantTre
 				if perr != nil {
 					return nil, perr
 				}
-				e.Close()
+				e.Shutdown()
 				os.Remove(e.Drive)
 				if werr := WriteForeign(e.Drive, spec); werr != nil {
 					return nil, fmt.Errorf("@foreign: %w", werr)
@@ -300,7 +300,7 @@ func RunHistoryB(dir string, c Cfg, id string, next func() (Call, bool), wantTre
 					return nil, err
 				}
 				e = ne
-				defer ne.Close()
+				defer ne.Shutdown()
 				s = NewSession(e)
 				items, _, serr := ScanTape(e.Drive, 0)
 				if serr != nil {
@@ -310,7 +310,7 @@ func RunHistoryB(dir string, c Cfg, id string, next func() (Call, bool), wantTre
 				prevBlocks = CompleteBlocks(e.Drive)
 			case "@reopen":
 				// a fresh process over the same drive: new managers, new persister, no handles
-				e.Close()
+				e.Shutdown()
 				mode := "keep"
 				nc := c
 				for _, a := range call.Args {
@@ -339,7 +339,7 @@ func RunHistoryB(dir string, c Cfg, id string, next func() (Call, bool), wantTre
 					return nil, err
 				}
 				e = ne
-				defer ne.Close()
+				defer ne.Shutdown()
 				s = NewSession(e)
 				c = nc
 			}
